@@ -1227,6 +1227,11 @@ hdf_read_ndgs(NC *handle)
             formatbuf = hdf_get_pred_str_attr(handle, DFTAG_SDF, fRef, 3);
             scalebuf  = hdf_get_pred_str_attr(handle, DFTAG_SDS, sRef, 0);
 
+            /* a string that is referenced but could not be read is an error; the
+               label, unit and format buffers are walked below without further checks */
+            if ((lRef && labelbuf == NULL) || (uRef && unitbuf == NULL) || (fRef && formatbuf == NULL))
+                HGOTO_ERROR(DFE_GETELEM, FAIL);
+
             /* skip over the garbage at the beginning */
             scale_offset = rank * sizeof(uint8);
 
